@@ -71,6 +71,8 @@ func runC11(c *explore.Ctx) {
 	c.Rule += " E2 (wire): every sequence of join / leave (UNSUBSCRIBE, DISCONNECT with session end, take-over with clean start, TerminateSession, session expiry) / publish operations over 3 members, 2 groups, a wildcard shared filter and a non-shared subscription up to the depth on a fresh in-process broker; for every publish EVERY value of rand.Intn (the member pick) is enumerated: exactly one current member of every group receives the message, leavers never, non-shared subscribers always, no retained replay on shared subscribe, wildcard shared filters do not match $-topics."
 	c11Wire(c)
 	c11Store(c)
+	c.Rule += " E3: a member leaves (UNSUBSCRIBE / its connection ends / TerminateSession) and another joins while two messages are published, every schedule with <=k deviations and every random pick: no message reaches two members, a non-shared subscriber gets every message, afterwards exactly one current member is picked."
+	c11Race(c)
 }
 
 // ---- E2: wire level, every rand.Intn pick enumerated
